@@ -625,7 +625,7 @@ def e2e_eval(obs):
             viol.append(V(f'{x.label}: result() raised {x.exc!r} but the stored exception is {exc!r}', sym='result-mismatch', cls='e2e'))
         if x.outcome == 'success' and exc is not None:
             viol.append(V(f'{x.label}: result() returned normally but an exception {exc!r} is stored', sym='result-mismatch', cls='e2e'))
-        for s in x.subs:
+        for s in oracles.subs_of(x):
             for info in s.done_info:
                 if not info['future_done']:
                     viol.append(V(f'{x.label}: future.done() False inside on_done', sym='on_done-not-done', cls='e2e'))
